@@ -50,9 +50,11 @@ pub use protocol::Version;
 /// verification hooks (feature `verif-hooks`): trace recorder and entropy-source re-exports.
 #[cfg(feature = "verif-hooks")]
 pub mod verif {
+    pub use crate::generator::verif::{set_aliases, start, state, take};
+    #[cfg(feature = "verif-hooks-ext")]
     pub use crate::generator::verif::{
         begin, dispatch_bytes, dispatch_float, dispatch_int, dispatch_memo_index, dispatch_string,
-        emit_one, finish, memo_kind, push_filled, push_kind, set_aliases, start, state, take, valid_opcodes,
+        emit_one, finish, memo_kind, push_filled, push_kind, valid_opcodes,
     };
     pub use crate::generator::{EntropySource, GenerationSource};
 }
